@@ -16,6 +16,12 @@ Swept dimensions besides the random corpus (lib/c07_util.py): nesting depth 1..4
 types (C07D), the internal boundaries of the encoders (C07B: DER/OER length-of-length edges,
 the 32-octet scratch of the PER bit writer at every put width, the XER hex-dump rows), totals
 2^k-1, 2^k, 2^k+1 for asn_encode_to_new_buffer, extension additions (C07E).
+Primitive BODY LENGTHS across every local scratch / flush boundary of the text encoders, per FLAG SET (lib/c07w_util.py,
+module C07P built with native types and with -fwide-types): INTEGER hex dump 1..45 octets, decimal 1..20 digits, ENUMERATED
+names around asn__format_to_callback's 64, REAL texts around 64, OID / RELATIVE-OID arcs, BIT STRING around 118 characters and
+the rows of 8 octets, UTF8 / BMP / Universal strings with escapes around their 128-octet scratch, time types, long names; the
+INTEGER text is predicted from the contents octets, the INTEGER dump's chunk list by Rt/XerChunk.v; the print routines
+(same body writers) run with the callback failing at every index.
 Each observed run is compared with the extracted model of the wrappers fed with the
 observed fault-free trace (faithfulness), with the model encoders' bytes (DER, UPER, OER) and
 CHUNK LISTS (XER), and with the property evaluated directly in Python on the C output (oracle)."""
@@ -24,6 +30,8 @@ sys.path.insert(0, os.path.join(os.path.dirname(os.path.abspath(__file__)), ".."
 from vlib import *
 from modcorpus import *
 from c07_util import *
+from c07w_util import *
+import threading
 
 INC = os.path.join(HARNESS, "moddrv_c07.inc")
 SYNS = ["der", "uper", "oer", "xer", "cxer"]
@@ -243,6 +251,8 @@ def check_sweep(ctx, it, syn, line, out, ks):
     m, tn, der, label = it["m"], it["tn"], it["der"], it["label"]
     model_bytes = it["mb"].get(syn)
     rep = {"module": m["text"], "type": tn, "der": der[:4000], "syntax": syn, "command_line": line[:4000], "c": out[:1500], "label": label}
+    if it.get("flag"):
+        rep["asn1c_flags"], rep["body"] = ("-fwide-types" if it["flag"] == "wide" else "(native types)"), it["plabel"]
     if it.get("depth"):
         rep["depth"] = it["depth"]
     segs = out.split(" | ")
@@ -323,6 +333,8 @@ def check_bufsweep(ctx, it, syn, line, out, ret, chunks, sizes):
     run = ctx.run
     m, tn, der, label = it["m"], it["tn"], it["der"], it["label"]
     rep = {"module": m["text"], "type": tn, "der": der[:4000], "syntax": syn, "command_line": line[:4000], "label": label}
+    if it.get("flag"):
+        rep["asn1c_flags"], rep["body"] = ("-fwide-types" if it["flag"] == "wide" else "(native types)"), it["plabel"]
     segs = out.split(" | ")
     if "DIED" in out and "sig=6" not in out:
         bad = [sg for sg in segs if "DIED" in sg][0]
@@ -365,6 +377,8 @@ def check_newbuf(ctx, it, syn, line, out, ret, chunks):
     run = ctx.run
     m, tn, der, label = it["m"], it["tn"], it["der"], it["label"]
     rep = {"module": m["text"], "type": tn, "der": der[:4000], "syntax": syn, "command_line": line[:4000], "c": out[:800], "label": label}
+    if it.get("flag"):
+        rep["asn1c_flags"], rep["body"] = ("-fwide-types" if it["flag"] == "wide" else "(native types)"), it["plabel"]
     run.case(line[:200])
     d = kv(out)
     data = b"".join(chunks)
@@ -428,6 +442,76 @@ def check_battery(ctx, m, tn, line, out):
                 run.violation("oracle:size_accounting(%s,%s)" % (kind, syn), dict(rep, segment=seg, what="entry points disagree on failure: %s" % seg))
             elif new[2] != "NULL":
                 run.violation("oracle:new_buffer_null_on_failure(%s,%s)" % (kind, syn), dict(rep, segment=seg, what="asn_encode_to_new_buffer failed but returned a non-NULL buffer: %s" % seg))
+
+
+def der_content(der_hex):
+    """contents octets of a primitive TLV with a one-octet tag"""
+    b = bytes.fromhex(der_hex)
+    l = b[1]
+    if l < 128:
+        return b[2:2 + l]
+    k = l & 0x7f
+    return b[2 + k:2 + k + int.from_bytes(b[2:2 + k], "big")]
+
+
+def prim_oracle(ctx, w, syn, line, ret, chunks, int_items):
+    """what the check can say about a primitive body without any model: the TEXT of an INTEGER (decimal within
+    intmax_t / uintmax_t, the xx:yy:zz dump beyond) is known from the contents octets, so its length is too"""
+    run = ctx.run
+    if w["tn"] not in ("WI", "WJ", "WP") or syn not in ("xer", "cxer") or ret < 0:
+        return
+    tn = w["tn"]
+    data = b"".join(chunks)
+    content = der_content(w["der"])
+    v = int.from_bytes(content, "big", signed=True)
+    if tn == "WP" and w["flag"] == "wide":
+        # unsigned specifics: asn_INTEGER2umax ignores all-zero extra leading octets and reads the rest as a magnitude
+        lead = content[:-8] if len(content) > 8 else b""
+        if any(lead):
+            body, form = int_dump_text(content), "hexdump"
+        else:
+            body, form = str(int.from_bytes(content, "big")).encode(), "decimal"
+    elif -2 ** 63 <= v < 2 ** 63:
+        body, form = str(v).encode(), "decimal"
+    else:
+        body, form = int_dump_text(content), "hexdump"            # (WJ does not fit a long: INTEGER_t under both flag sets)
+    want = b"<%s>%s</%s>%s" % (tn.encode(), body, tn.encode(), b"" if syn == "cxer" else b"\n")
+    run.count("prim_int_text_%s_%s" % (w["flag"], form))
+    if form == "hexdump":
+        n = len(int_dump_strip(content))
+        run.count("prim_int_hexdump_octets_%s" % ("9-10" if n <= 10 else "11-20" if n <= 20 else "21-30" if n <= 30 else "31+"))
+        int_items.append((w, syn, ret, chunks, content))
+    if data != want:
+        run.violation("oracle:int_text(%s)" % syn, {"module": w["m"]["text"][:600], "type": tn, "der": w["der"][:4000], "syntax": syn, "flags": w["flag"], "command_line": line[:4000],
+                                                    "what": "the XER text of an INTEGER of %d contents octets (%s form) is not the expected one" % (len(content), form),
+                                                    "expected": want[:600].decode("latin-1"), "got": data[:600].decode("latin-1")})
+
+
+def check_print(ctx, w, line, out):
+    run = ctx.run
+    rep = {"module": w["m"]["text"][:600], "type": w["tn"], "der": w["der"][:4000], "command_line": line[:4000], "c": out[:600],
+           "asn1c_flags": "-fwide-types" if w["flag"] == "wide" else "(native types)", "body": w["plabel"]}
+    run.case(line[:200])
+    run.count("print_%s" % w["flag"])
+    segs = out.split(" | ")
+    if "DIED" in out or not segs[0].startswith("ret="):
+        run.violation("crash:print", dict(rep, what="the process died (abort, signal or sanitizer report) in the print routine of a primitive body"))
+        return
+    h = kv(segs[0])
+    xret = w["res"]["xer"][0]
+    if h["ret"] != "0" and xret >= 0:
+        run.violation("oracle:print_result", dict(rep, what="print_struct returned %s with a never-failing callback for a value BASIC-XER encodes" % h["ret"]))
+        return
+    n = min(int(h["calls"]), 600)
+    if len(segs) - 1 != n:
+        run.violation("oracle:print_result", dict(rep, what="unexpected driver output: %d fault runs for %s invocations" % (len(segs) - 1, h["calls"])))
+        return
+    for k, seg in enumerate(segs[1:]):
+        d = kv(seg)
+        run.count("print_cbfail")
+        if d.get("k") != str(k) or d.get("ret") != "-1" or d.get("calls") != str(k + 1):
+            run.violation("oracle:print_cb_failure", dict(rep, k=k, segment=seg, what="callback failing at invocation %d of the print routine: expected ret=-1 after %d invocations, got [%s]" % (k, k + 1, seg)))
+            return
 
 
 # ---------------------------------------------------------------- model side
@@ -528,6 +612,32 @@ def model_lines_xer(items, rng):
     return lines, expect
 
 
+def model_lines_int(items, rng):
+    """items: (work item, syn, ret, chunks, contents octets).  The chunked INTEGER dump of Rt/XerChunk.v inside
+    xer_encode, run through the modelled asn_encode: the SAME chunk list as the C (where the scratch is flushed),
+    the same result; a fault at EVERY k; the two buffer entry points at sizes around the flush boundaries."""
+    lines, expect = [], []
+    for w, syn, ret, chunks, content in items:
+        rep = {"module": w["m"]["text"][:600], "type": w["tn"], "der": w["der"][:4000], "syntax": syn, "asn1c_flags": "-fwide-types"}
+        n = len(chunks)
+        total = sum(len(c) for c in chunks)
+        data = b"".join(chunks)
+        pre = "%d %s %s" % (1 if syn == "cxer" else 0, w["tn"], content.hex() or "-")
+        lines.append("c07_int %s -1" % pre)
+        expect.append((rep, "ret=%d errno=E0 calls=%d sizes=%s hex=%s" % (ret, n, ",".join(str(len(c)) for c in chunks) or "-", data.hex() or "-")))
+        ks = list(range(n)) if n <= 12 else sorted(set([0, 2, 3, 4, n - 4, n - 3, n - 1] + [rng.below(n) for _ in range(3)]))
+        for k in ks:
+            lines.append("c07_int %s %d" % (pre, k))
+            expect.append((rep, "ret=-1 errno=EIO calls=%d sizes=%s hex=%s" % (k + 1, ",".join(str(len(c)) for c in chunks[:k]) or "-", b"".join(chunks[:k]).hex() or "-")))
+        if total <= 400:
+            for s in rng.shuffle(pick_sizes(chunks, total, rng, False))[:5]:
+                lines.append("c07_int_tobuf %s %d" % (pre, s))
+                expect.append((rep, "ret=%d errno=E0 oob=0 buf=%s" % (ret, fitted(chunks, s).hex() or "-")))
+            lines.append("c07_int_newbuf %s" % pre)
+            expect.append((rep, "ret=%d errno=E0 buf=%s" % (ret, data.hex() or "-")))
+    return lines, expect
+
+
 def run_model(ctx, lines, expect, kindf, what):
     """the model batch in several processes; every line must equal the C's canonical line"""
     run = ctx.run
@@ -598,14 +708,34 @@ def main(tier):
     em = hand_module("C07E", EXT_TEXT, ["EX", "EC"])
     dm = depth_module()
     bm = boundary_module()
+    # the primitive-body module, once per FLAG SET (native types / -fwide-types: INTEGER_t, REAL_t, ENUMERATED_t)
+    pn = prim_module("C07P")
+    pw = prim_module("C07PW")
+    only_prim = bool(os.environ.get("C07_ONLY_PRIM"))          # development aid: the primitive layer alone
     try:
         nm, nt, nv = (8, 5, 4) if quick else (40, 6, 8)
+        if only_prim:
+            nm = 1
         mods, cases = build_corpus(run, rng, nm, nt, nv, tier, tag="c07mods", moddrv_extra=INC)
-        build_modules([xm, em, dm, bm], tag="c07x", moddrv_extra=INC)
+        wide_err = []
+
+        def build_wide():
+            try:
+                build_modules([pw], tag="c07pw", opts=("-fcompound-names", "-fwide-types"), moddrv_extra=INC)
+            except Exception as e:          # reported below, from the main thread
+                wide_err.append(e)
+        th = threading.Thread(target=build_wide)
+        th.start()
+        build_modules([xm, em, dm, bm, pn], tag="c07x", moddrv_extra=INC)
+        th.join()
+        if wide_err:
+            raise wide_err[0]
     except BuildError as e:
         run.violation("build", {"what": str(e)[-2500:]}, no_input=True)
         return run.finish("proof", (nthm, ndis))
-    allmods = mods + [xm, em, dm, bm]
+    if only_prim:
+        mods, cases = [], []
+    allmods = mods + [xm, em, dm, bm, pn, pw]
     for m in allmods:
         if not m.get("exe"):
             run.violation("build:module", {"what": "asn1c rejected a module or its output does not compile", "module": m["text"],
@@ -665,6 +795,18 @@ def main(tier):
                 add(m, tn, d, "violating", {"der": d, "uper": u, "oer": o}, xv=xv_of(env[tn], parse_val(reord.get(i, vs)), env))
     for tn, d in EXTRA_VALUES:
         add(xm, tn, d, "extra", {})
+    # ---- swept dimension: primitive BODY LENGTHS across the scratch / flush boundaries of the text encoders, per flag set
+    for pm, flag in ((pn, "native"), (pw, "wide")):
+        if not pm.get("exe"):
+            continue
+        for pi, (tn, d, plabel) in enumerate(prim_values(flag, tier, Rng(run.seed + 77))):
+            if quick and tn in FLAG_INDEPENDENT and (pi + run.seed + (flag == "wide")) % 2:
+                continue                     # the same code under both flag sets: each value under one of them
+            # quick: the binary syntaxes (no text buffer involved) for a rotating third of the values
+            only = None if not quick or (pi + run.seed) % 3 == 0 else ["xer", "cxer"]
+            add(pm, tn, d, "prim", {}, only=only)
+            work[-1]["plabel"], work[-1]["flag"] = plabel, flag
+            run.count("prim_%s_%s" % (flag, plabel.split("-")[0]))
     dbg('corpus items %d' % len(work))
     # ---- swept dimension: nesting depth (recursive types), every syntax
     ddefs = depth_defs()
@@ -738,6 +880,8 @@ def main(tier):
                 continue
             add(em, tn, d, "ext", {"der": d, "uper": u, "oer": o}, xv=xv, big=len(d) > 2000)
     work = [w for w in work if w["m"].get("exe")]
+    if only_prim:
+        work = [w for w in work if w["label"] == "prim"]
     bym = {}
     for w in work:
         bym.setdefault(w["m"]["name"], []).append(w)
@@ -787,7 +931,7 @@ def main(tier):
         batches.append((m, ls))
     outs = run_mods(ctx, batches, "C07")
     dbg('phase2 C done')
-    api_items, xer_items = [], []
+    api_items, xer_items, int_items = [], [], []
     batches2, idx2 = [], []
     for (m, ls), out in zip(batches, outs):
         i = 0
@@ -800,7 +944,9 @@ def main(tier):
                 o, line = out[i], ls[i]
                 i += 1
                 if o.startswith("DECFAIL") or o in ("CRASH", "BADARG"):
-                    if label != "violating" or o in ("CRASH", "BADARG"):
+                    if label == "prim" and "-" in w["plabel"] and o.startswith("DECFAIL"):
+                        run.count("prim_malformed_not_decoded")        # a deliberately malformed body the BER decoder refuses
+                    elif label != "violating" or o in ("CRASH", "BADARG"):
                         run.violation("harness:decode", {"what": "transport DER not accepted", "module": m["text"], "type": tn, "der": der[:4000], "c": o}, no_input=True)
                     continue
                 ks = w["ks"][syn] if w["big"] else None
@@ -814,9 +960,23 @@ def main(tier):
                     run.count("newbuf_aim_%s" % ("hit" if total == w["target"][1] else "miss"))
                     if total != w["target"][1]:
                         run.violation("harness:newbuf_target", {"what": "the value aimed at a total of %d octets in %s encodes to %d" % (w["target"][1], syn, total), "type": tn, "der": der[:400]}, no_input=True)
-                if total <= ALL_SIZES and (not w["big"] or w["label"] == "depth"):
+                if total <= ALL_SIZES and (not w["big"] or w["label"] == "depth") and not (quick and label == "prim" and total > 48):
                     sizes = list(range(total + 2))
                     ls2.append("bufsweep %s der %s %s %d" % (tn, der, syn, total + 1))
+                elif quick and label == "prim":
+                    # directed: both ends, every chunk boundary (flush points) +-1 when few, a sample otherwise
+                    xs = {0, 1, 2} | set(range(max(total - 3, 0), total + 2))
+                    off = 0
+                    bounds = []
+                    for c in chunks:
+                        off += len(c)
+                        bounds.append(off)
+                    for b in (bounds if len(bounds) <= 10 else rng.shuffle(bounds)[:8]):
+                        xs.update([b - 1, b, b + 1])
+                    for _ in range(3):
+                        xs.add(rng.below(total + 1))
+                    sizes = sorted(x for x in xs if 0 <= x <= total + 1)
+                    ls2.append("bufat %s der %s %s %s" % (tn, der, syn, ranges(sizes)))
                 else:
                     xs = set(range(0, 34)) | set(range(max(total - 20, 0), total + 2))
                     off = 0
@@ -840,8 +1000,10 @@ def main(tier):
                 ix2.append(("new", w, syn, ret, chunks, None))
                 uz = (syn == "uper" and ret == 1 and chunks == [b"\x00"] and (w["mb"].get("uper") in ("00", None)) and label != "violating" and tn not in ("I7",))
                 rep = {"module": m["text"], "type": tn, "der": der[:4000], "syntax": syn, "label": label}
-                if w["api_model"] and total <= 4000 and rng.chance(*((1, 3) if total <= 64 else (1, 12)) if quick else (1, 2)):
+                if w["api_model"] and total <= 4000 and rng.chance(*((1, 30) if label == "prim" else (1, 3) if total <= 64 else (1, 12)) if quick else (1, 2)):
                     api_items.append((rep, syn, ret, errno, chunks, uz, total <= 100 and not w["big"]))
+                if label == "prim":
+                    prim_oracle(ctx, w, syn, line, ret, chunks, int_items)
                 if syn in ("xer", "cxer") and w["xv"] is not None:
                     if not (quick and w["depth"] and w["depth"] > 24 and len(chunks) > 5000 and w["depth"] != 40):
                         xer_items.append((rep, 1 if syn == "cxer" else 0, tn, w["xv"], ret, errno, chunks, not w["big"]))
@@ -867,6 +1029,12 @@ def main(tier):
             if w["label"] in ("violating", "target") or len(w["der"]) > 2 * MAXHEX:
                 continue
             key = w["tn"]
+            if w["label"] == "prim":
+                # one value per (type, kind of body): the mutations meet INTEGER_t / REAL_t / BIT_STRING_t ... bodies of both flag sets
+                key = (w["tn"], w["plabel"])
+                if per_type.get(key) or "-" in w["plabel"] or (quick and (len(per_type) + run.seed) % 2):
+                    per_type[key] = per_type.get(key, 0) + 5
+                    continue
             if w["depth"]:
                 # mutations deep inside a nested value as well as near the top
                 if w["depth"] not in (2, 5, 9, 12):
@@ -900,6 +1068,20 @@ def main(tier):
         for l, o in zip(ls4, out4):
             check_battery(ctx, m, l.split()[1], l, o)
     dbg('phase4 done')
+    # ---- phase 4b: the print routines of the primitive bodies (the same body writers as XER, plainOrXER = 0): every flush of
+    # every local buffer with the callback failing at every index; never a crash, -1 after exactly k+1 invocations
+    batches5 = []
+    for m in order:
+        ls = []
+        for pi, w in enumerate(bym[m["name"]]):
+            if w["label"] == "prim" and (not quick or (pi + run.seed) % 2 == 0) and "xer" in w["res"]:
+                ls.append((w, "print7 %s der %s" % (w["tn"], w["der"])))
+        batches5.append((m, ls))
+    outs5 = run_mods(ctx, [(m, [l for _w, l in ls]) for m, ls in batches5], "C07")
+    for (m, ls), out5 in zip(batches5, outs5):
+        for (w, line), o in zip(ls, out5):
+            check_print(ctx, w, line, o)
+    dbg('phase4b done')
     # ---- phase 5: the extracted model
     if nthm:
         lines, expect = model_lines_api(api_items, rng)
@@ -910,6 +1092,10 @@ def main(tier):
         dbg('xer model lines %d' % len(lines))
         run_model(ctx, lines, expect, lambda l: "correspondence:XerEnc(%s,%s)" % (l.split()[0], "cxer" if l.split()[1] == "1" else "xer"),
                   "the modelled XER encoder (Rt/XerEnc.v: ASN__CALLBACK accounting, ASN__TEXT_INDENT one invocation per level) run through the modelled wrappers differs from the C: chunk list, bytes or result")
+        lines, expect = model_lines_int(int_items, rng)
+        dbg('int dump model lines %d' % len(lines))
+        run_model(ctx, lines, expect, lambda l: "correspondence:XerChunk(%s,%s)" % (l.split()[0], "cxer" if l.split()[1] == "1" else "xer"),
+                  "the modelled INTEGER dump (Rt/XerChunk.v: 32-octet scratch flushed every 10 octets, the counter kept by hand) inside xer_encode, run through the modelled wrappers, differs from the C: chunk list, bytes or result")
     dbg('model done')
     if os.environ.get('VERIF_DEBUG'):
         kinds = {}
@@ -921,6 +1107,7 @@ def main(tier):
           "extraction: ExtrOcamlBasic only; OCaml 4.13.1; ocaml/drv_c07.ml (parser of named value trees)",
           "harness/moddrv.c + harness/moddrv_c07.inc (fork per encoder call; fault-injecting callback; descriptor walk for the mutations); gcc + ASan/UBSan",
           "lib/modgen.py, lib/modcorpus.py, lib/c07_util.py (value-directed unrolling of recursive types, the names the XER model is given, an own DER encoder for transport); values reach the C as DER through ber_decode",
+          "lib/c07w_util.py (the primitive-body module and its DER values, built octet by octet; the INTEGER text the check predicts); asn1c -fwide-types for the second build of that module",
           "the inner encoders' scripts (DER, UPER, OER) are reconstructed from the C's own fault-free trace (chunk boundaries are observed, not predicted); the XER chunk boundaries ARE predicted by Rt/XerEnc.v"]
     return run.finish("proof", (nthm, ndis), trusted_base=tb,
                       checker_cmd="make -C /verif all && coqc -Q coq A1 coq/Props/Properties_C07.v",
@@ -928,7 +1115,7 @@ def main(tier):
                                  "rule": "one case = (module, type, value, syntax, fault index k) or (…, buffer size) or (…, mutation site, syntax) or one model line; every k in 0..calls-1 and every size in 0..n+1 for values up to %d invocations / %d octets, a directed sample (ends, chunk boundaries, 2^j, random) above" % (ALL_K, ALL_SIZES),
                                  "traces_validated_against_impl": run.cov["evaluations"]},
                       assumptions=["allocation failure inside asn_encode_to_new_buffer is proved on the model only (not injected into the C)",
-                                   "XER model: INTEGER in the native range, the base algebra of lib/modgen.py (no DEFAULT, no ENUMERATED/REAL/strings other than OCTET STRING)",
+                                   "XER model: the base algebra of lib/modgen.py (no DEFAULT, no ENUMERATED/REAL/strings other than OCTET STRING); INTEGER beyond the native range through Rt/XerChunk.v as a top-level type; the other primitive text bodies are under the oracles on the C alone",
                                    "values above %d invocations / %d octets: sampled fault indices and buffer sizes" % (ALL_K, ALL_SIZES)])
 
 
